@@ -144,7 +144,9 @@ def run(R):
     R.rule = ("point clouds in 2-5 dimensions (random dyadic, lattice with many coplanar points, simplices with sharp corners, "
               "fewer points than dimensions for the slice; for the slice also FLAT clouds with more points than dimensions: captures "
               "of fewer sources than receptors, a face of the lattice, affine images of lower-dimensional clouds, collinear points); "
-              "query points inside, outside and beyond corners; plane levels across the admissible range. The hull handed to "
+              "query points inside, outside and beyond corners; plane levels across the admissible range, incl. exactly the smallest "
+              "coordinate sum (plane touching the lowest vertex/face), just above it, and exactly through another cloud point; slice "
+              "clouds with a point listed two or three times at random positions. The hull handed to "
               "proj_B_to_hull / alpha_for_B_with_P is described by qhull's unit-normal rows, by the same rows each multiplied by its "
               "own positive factor, by rows in the convention n.x <= 1, or by hand-written integer rows (gcd 1) of a whole-number "
               "cloud: all describe the same half-spaces. Arrays reach the implementation as given / integer dtype (whole values) / "
@@ -257,7 +259,31 @@ def run(R):
             cval = float(sums.min() + lev * (sums.max() - sums.min()))
             if cval <= 0:
                 cval = float(sums.max()) / 2
-            c.update(P=P, c=cval, few_points=few, flat=flat)
+            # own stream: (a) repeated rows - the same point listed twice or three times (a capture measured repeatedly), the copy
+            # put at a random position (so a repeat may come first and be followed by further hull vertices); (b) the level c at
+            # the lower end of the admissible range (exactly the smallest coordinate sum: the plane touches the hull in its lowest
+            # vertex / face), just above it, or exactly through the coordinate sum of another cloud point
+            rs_ = R.rng(7, k)
+            nrep = 0
+            if rs_.integers(3) == 0:
+                nrep = int(rs_.integers(1, 3))
+                for _ in range(nrep):
+                    src = int(rs_.integers(len(P))); pos = int(rs_.integers(len(P) + 1))
+                    P = np.insert(P, pos, P[src], axis=0)
+                sums = P.sum(1)
+            R.count("slice-repeated-rows:%d" % nrep)
+            lkind = str(rs_.choice(["interior", "interior", "interior", "lowest-sum", "just-above-lowest", "through-a-point"]))
+            if lkind == "lowest-sum" and sums.min() > 0:
+                cval = float(sums.min())
+            elif lkind == "just-above-lowest" and sums.min() + 2.0 ** -10 < sums.max():
+                cval = float(sums.min() + 2.0 ** -10)
+            elif lkind == "through-a-point" and np.any((sums > 0) & (sums < sums.max())):
+                cand = sums[(sums > 0) & (sums < sums.max())]
+                cval = float(cand[int(rs_.integers(len(cand)))])
+            else:
+                lkind = "interior"
+            R.count("slice-level:%s" % lkind)
+            c.update(P=P, c=cval, few_points=few, flat=flat, level=lkind, repeated_rows=nrep)
             R.count("slice:%s" % ("all-pairs" if P.shape[0] <= P.shape[1] else "hull-edges"))
             R.count("slice-cloud:%s" % ("few-points" if few else ("flat:" + flat if flat else "full-dimensional")))
             if flat:
